@@ -157,6 +157,10 @@ func (c chainBridge) InsertChain(momentums []*nom.DetailedMomentum) (int, error)
 		if err != nil {
 			return 0, err
 		}
+		if target == nil {
+			// the delivered head does not link to any momentum we have (its claimed height leaves a gap)
+			return 0, errors.Errorf("can't link momentums to insert. No momentum at height %v", head.Height-1)
+		}
 		if target.Identifier() != head.Previous() {
 			log.Error("can't link momentums to insert", "first")
 			return 0, errors.Errorf("can't link momentums to insert. First momentum Prev is %v but he have %v", head.Previous(), target.Identifier())
